@@ -166,7 +166,7 @@ def slice_checks(c, f, q, rnd, stats):
     j = rnd.randrange(len(mrefs))
     mname = "m%d" % j
     vals = sorted(float(r[cols.index(mname)]) for r in full if r[cols.index(mname)] is not None)
-    if vals:
+    if vals and max(abs(v) for v in vals) < 2 ** 53:      # beyond 2^53 (the garbled symmetric sums of C02-K2) a float threshold is not the value the database compares with
         thr = vals[len(vals) // 2]
         thr_txt = repr(int(thr)) if float(thr).is_integer() else repr(thr)
         op = rnd.choice([">=", "<", ">"])
